@@ -36,6 +36,12 @@ package server
 //     C07:replay:single-record           (no such excuse)
 //     C07:deadline-renewed:milliseconds  recorded finding F5
 //     C07:restart-fails
+//   two generations (a quarter of the cases, corpus lines with an "R" token): after the first restart the history CONTINUES on the
+//   restarted instance at virtual clock = real clock (client UNLOCKs of restored holds — all levels / one level —, re-locks and
+//   updates of restored holds, new holds, some expiring while the harness waits in real time), then drain, snapshot, second restart
+//   on a copy. Judged exactly like generation 1 (journal side against the database of generation 2, replay side against the journal
+//   of BOTH generations as it is on disk), on the keys where the journal on disk described the database when generation 2 began:
+//     C07:journal:unlock-of-restored-hold-not-journalled   a successful client UNLOCK of a journalled, restored hold wrote no record
 //   compaction — the meaning of the journal (and the real recovery) before and after a REAL compaction:
 //     C16:compaction:live-record-dropped               a dropped LOCK record carried the hold's CURRENT terms (a live hold is lost/changed)
 //     C16:compaction:priority-update-record-dropped    … and it is the update record of a hold taken with Rcount-is-priority
@@ -470,6 +476,12 @@ type vRCase struct {
 	outage                     int
 	bufSize, rewriteSize, aofT uint
 	compact                    bool
+	// two generations: after the first restart the history CONTINUES on the restarted instance (gen2, or generated from what the
+	// restart restored when twoGen is set and gen2 is nil), then a second restart
+	twoGen   bool
+	gen2     []vROp
+	gen2seed int64
+	gen2wait bool
 }
 
 func vRGenData(r *rand.Rand) *protocol.LockCommandData {
@@ -617,6 +629,19 @@ func vRGenCase(r *rand.Rand, it int) *vRCase {
 	t := 2 + r.Intn(6)
 	c.duration += t
 	c.ops = append(c.ops, vROp{tick: t})
+	if it%4 == 1 {
+		// (never a compaction case: it is odd) the history goes on after the restart — see runGen2
+		c.twoGen = true
+		c.gen2seed = r.Int63()
+		c.gen2wait = r.Intn(5) == 0
+		if c.outage > 5 {
+			c.outage = []int{0, 1, 2, 5}[r.Intn(4)] // keep enough restored holds to work on
+		}
+		c.keys = append(c.keys, [2]int{0, 900}) // a key of generation 2 only
+		sort.Slice(c.keys, func(i, j int) bool {
+			return c.keys[i][0] < c.keys[j][0] || (c.keys[i][0] == c.keys[j][0] && c.keys[i][1] < c.keys[j][1])
+		})
+	}
 	return c
 }
 
@@ -1036,6 +1061,18 @@ func (e *vREnv) runCase(it int, c *vRCase) {
 	// ---- C07 (replay side)
 	bad := e.replayCheck(recsA, snA, nowA, base, lineA, origBy, badJ, replay)
 
+	// ---- generation 2
+	if c.twoGen {
+		skip := map[[2]int]bool{}
+		for k := range bad {
+			skip[k] = true
+		}
+		for k := range badJ {
+			skip[k] = true
+		}
+		e.runGen2(dir, dirA, base, c, history, skip)
+	}
+
 	// ---- C16
 	if dirB == "" {
 		return
@@ -1076,8 +1113,7 @@ func (e *vREnv) runCase(it int, c *vRCase) {
 	lineB := e.rout.n
 	e.rout.emit(fmt.Sprintf("aofreload %d %s", nowB-base, jB), snB.String(base, false))
 	rpB := map[string]interface{}{"history": history, "base": base, "restartAt": nowB - base, "journal": jB, "restored": snB.String(base, false), "afterCompaction": true, "corpus": c.name}
-	// (the journal after the compaction is judged on its own: the database's deadlines belong to the journal before it)
-	_ = e.replayCheck(recsB, snB, nowB, base, lineB, map[[3]int]vRHold{}, badJ, rpB)
+	// (the journal after the compaction is judged on its own — see below, after the keys whose MEANING the compaction changed are known)
 	nearB := func(h vRHold) bool {
 		unit, _ := vRUnit(h.eflag)
 		return h.deadline != 0x7fffffffffffffff && h.deadline <= nowB+unit+2
@@ -1151,6 +1187,9 @@ func (e *vREnv) runCase(it int, c *vRCase) {
 		return o
 	}
 	replay2["journalMeansBefore"], replay2["journalMeansAfter"] = ideal.String(base), idealB.String(base)
+	for _, d := range vRCompareHolds("C16", alive(ideal), alive(idealB), func(vRHold) string { return "x" }, nearB, true) {
+		badB[[2]int{d.id[0], d.id[1]}] = true
+	}
 	if compactOK {
 		for _, d := range vRCompareHolds("C16", alive(ideal), alive(idealB), func(vRHold) string { return "x" }, nearB, true) {
 			what := strings.Split(d.sig, ":")[1]
@@ -1178,6 +1217,18 @@ func (e *vREnv) runCase(it int, c *vRCase) {
 			}
 		}
 	}
+	// the journal after the compaction, judged on its own (the database's deadlines belong to the journal before it) — on the keys
+	// whose meaning the compaction kept: where it dropped a record of a hold's history (reported above, by cause) what is left is a
+	// journal no engine writes (e.g. the levels of an earlier incarnation of a LockId without the UNLOCK between them and the next
+	// LOCK), and how a restart reads THAT is not a question about the replay
+	skipB := map[[2]int]bool{}
+	for k := range badJ {
+		skipB[k] = true
+	}
+	for k := range badB {
+		skipB[k] = true
+	}
+	_ = e.replayCheck(recsB, snB, nowB, base, lineB, map[[3]int]vRHold{}, skipB, rpB)
 	// (2) the real recovery of both directories (same real second), on the keys where the recovery of the ORIGINAL files is what
 	// the journal means. A difference is reported only when a second pair of fresh recoveries shows it again.
 	abDiffs := func(a, b *vRSnap) map[string]vRDiff {
@@ -1368,12 +1419,20 @@ func vRLoadCorpus(path string) []*vRCase {
 		}
 		seen := map[[2]int]bool{}
 		for _, tok := range strings.Fields(hd[1]) {
+			if tok == "R" {
+				// generation boundary: restart here, the remaining operations run on the restarted instance (T<n> = wait n REAL seconds)
+				c.twoGen = true
+				c.gen2 = []vROp{}
+				continue
+			}
 			o, ok := vRParseOp(tok)
 			if !ok {
 				panic("corpus: bad op " + tok)
 			}
 			if o.cmd == nil {
-				c.duration += o.tick
+				if !c.twoGen {
+					c.duration += o.tick
+				}
 			} else {
 				if o.cmd.db >= c.ndb {
 					c.ndb = o.cmd.db + 1
@@ -1383,7 +1442,11 @@ func vRLoadCorpus(path string) []*vRCase {
 					c.keys = append(c.keys, k)
 				}
 			}
-			c.ops = append(c.ops, o)
+			if c.twoGen {
+				c.gen2 = append(c.gen2, o)
+			} else {
+				c.ops = append(c.ops, o)
+			}
 		}
 		sort.Slice(c.keys, func(i, j int) bool {
 			return c.keys[i][0] < c.keys[j][0] || (c.keys[i][0] == c.keys[j][0] && c.keys[i][1] < c.keys[j][1])
@@ -1834,4 +1897,321 @@ func vRCheckPairing(dir string) string {
 		}
 	}
 	return ""
+}
+
+// ---- two generations -----------------------------------------------------------------------------------------------------------
+
+// restartLive: as restartPinned, but the restarted node is handed back alive (its directory is a fresh copy of src).
+func (e *vREnv) restartLive(src string, c *vRCase) (*vRNode, string, int64, string) {
+	for attempt := 0; attempt < 6; attempt++ {
+		e.rseq++
+		d := filepath.Join(filepath.Dir(src), fmt.Sprintf("g%d", e.rseq))
+		vRCopyDir(src, d)
+		now := time.Now().Unix()
+		m, err := vRStart(d, now, c.ndb, c.bufSize, 67174400, c.aofT)
+		same := time.Now().Unix() == now
+		if err != nil {
+			m.stop()
+			if !same {
+				continue
+			}
+			return nil, d, now, "err"
+		}
+		if !same || !m.clockOK() {
+			m.stop()
+			_ = os.RemoveAll(d)
+			e.stats["second-boundary-retries"]++
+			continue
+		}
+		return m, d, now, "ok"
+	}
+	return nil, "", 0, "clock"
+}
+
+// follow: the virtual clock catches up with the real one (sweeps run per elapsed second).
+func (n *vRNode) follow() {
+	for n.now < time.Now().Unix() {
+		n.tick()
+	}
+}
+
+// vRGen2Ops: what clients do after the restart, generated from what the restart restored.
+func vRGen2Ops(r *rand.Rand, sn *vRSnap, c *vRCase, wait bool, stats map[string]int) []vROp {
+	var ops []vROp
+	for _, h := range sn.holds {
+		mk := func(kind byte) *vRCmd { return &vRCmd{kind: kind, db: h.db, key: h.key, lockId: h.lockId} }
+		terms := func(cmd *vRCmd) {
+			cmd.eflag, cmd.expried, cmd.count, cmd.rcount, cmd.tflag = h.eflag, h.expried, h.count, h.rcount, h.tflag&protocol.TIMEOUT_FLAG_RCOUNT_IS_PRIORITY
+		}
+		switch p := r.Intn(100); {
+		case p < 30:
+			stats["gen2-op-unlock-restored"]++
+			ops = append(ops, vROp{cmd: mk('U')})
+		case p < 45:
+			stats["gen2-op-unlock-one-level-of-restored"]++
+			cmd := mk('U')
+			cmd.rcount = 1
+			ops = append(ops, vROp{cmd: cmd})
+		case p < 60:
+			stats["gen2-op-relock-restored"]++
+			cmd := mk('L')
+			terms(cmd)
+			if cmd.rcount < h.depth {
+				cmd.rcount = h.depth
+			}
+			ops = append(ops, vROp{cmd: cmd})
+		case p < 75:
+			stats["gen2-op-update-restored"]++
+			cmd := mk('L')
+			terms(cmd)
+			cmd.flag = protocol.LOCK_FLAG_UPDATE_WHEN_LOCKED
+			if h.eflag&0x4440 == 0 {
+				cmd.expried = 5 + r.Intn(60)
+			}
+			if cmd.eflag&protocol.EXPRIED_FLAG_UNLIMITED_EXPRIED_TIME != 0 && cmd.expried == 0xffff {
+				cmd.expried = 100
+			}
+			if r.Intn(3) == 0 {
+				cmd.data = vRGenData(r)
+			}
+			ops = append(ops, vROp{cmd: cmd})
+			if r.Intn(3) == 0 {
+				stats["gen2-op-unlock-restored-after-update"]++
+				ops = append(ops, vROp{cmd: mk('U')})
+			}
+		default:
+			stats["gen2-restored-left-alone"]++
+		}
+	}
+	r.Shuffle(len(ops), func(i, j int) { ops[i], ops[j] = ops[j], ops[i] })
+	nnew := 1 + r.Intn(3)
+	var fresh []*vRCmd
+	for i := 0; i < nnew; i++ {
+		dk := c.keys[r.Intn(len(c.keys))]
+		cmd := &vRCmd{kind: 'L', db: dk[0], key: dk[1], lockId: 4 + i, count: r.Intn(3), rcount: r.Intn(3)}
+		switch r.Intn(4) {
+		case 0:
+			cmd.eflag, cmd.expried = protocol.EXPRIED_FLAG_UNLIMITED_EXPRIED_TIME, 100
+		case 1:
+			cmd.eflag, cmd.expried = protocol.EXPRIED_FLAG_MINUTE_TIME, 1+r.Intn(3)
+		default:
+			cmd.expried = 20 + r.Intn(200)
+		}
+		cmd.eflag |= protocol.EXPRIED_FLAG_ZEOR_AOF_TIME
+		if wait && i == 0 {
+			cmd.eflag, cmd.expried = protocol.EXPRIED_FLAG_ZEOR_AOF_TIME, 1 // expires while the harness waits
+		}
+		if r.Intn(3) == 0 {
+			cmd.data = vRGenData(r)
+		}
+		stats["gen2-op-new-hold"]++
+		fresh = append(fresh, cmd)
+		ops = append(ops, vROp{cmd: cmd})
+	}
+	if wait {
+		ops = append(ops, vROp{tick: 2})
+	}
+	if r.Intn(2) == 0 {
+		f := fresh[r.Intn(len(fresh))]
+		stats["gen2-op-unlock-new-hold"]++
+		ops = append(ops, vROp{cmd: &vRCmd{kind: 'U', db: f.db, key: f.key, lockId: f.lockId}})
+	}
+	if len(sn.holds) > 0 && r.Intn(2) == 0 {
+		h := sn.holds[r.Intn(len(sn.holds))]
+		stats["gen2-op-unlock-restored"]++
+		ops = append(ops, vROp{cmd: &vRCmd{kind: 'U', db: h.db, key: h.key, lockId: h.lockId}})
+	}
+	return ops
+}
+
+func (e *vREnv) runGen2(dir, dirA string, base int64, c *vRCase, history string, skip map[[2]int]bool) {
+	stats := e.stats
+	m, d2, now1, st := e.restartLive(dirA, c)
+	if st != "ok" {
+		stats["gen2-restart-"+st]++
+		return
+	}
+	sn1 := m.snapshot(c.keys)
+	// the journal on disk when generation 2 begins (the start-up has compacted the directory): keys where it does not describe the
+	// database are the business of generation 1 / of the compaction checks
+	dS := filepath.Join(dir, "s")
+	vRCopyDir(d2, dS)
+	j1, _, _ := m.journal(dS, base)
+	recs1 := vRParseJournal(j1)
+	ideal1 := vRRecover(recs1, base)
+	near1 := func(h vRHold) bool {
+		unit, _ := vRUnit(h.eflag)
+		return h.deadline != 0x7fffffffffffffff && h.deadline <= now1+unit+2
+	}
+	for _, d := range vRCompareHolds("S", sn1.holds, ideal1.list(), func(vRHold) string { return "x" }, near1, true) {
+		skip[[2]int{d.id[0], d.id[1]}] = true
+	}
+	for _, k := range sn1.keys {
+		if iv, ok := ideal1.values[[2]int{k.db, k.key}]; k.value != nil && (!ok || iv != vHex(k.value)) {
+			skip[[2]int{k.db, k.key}] = true
+		}
+	}
+	restored := map[[3]int]bool{}
+	for _, h := range sn1.holds {
+		restored[h.id()] = true
+	}
+	ops := c.gen2
+	if ops == nil {
+		ops = vRGen2Ops(rand.New(rand.NewSource(c.gen2seed)), sn1, c, c.gen2wait, stats)
+	}
+	// successful client UNLOCKs of holds that were journalled at that moment
+	unl := map[[3]int]int{}
+	opstr := make([]string, len(ops))
+	for i, o := range ops {
+		opstr[i] = o.String()
+		m.follow()
+		if o.cmd == nil {
+			target := m.now + int64(o.tick)
+			for time.Now().Unix() < target {
+				time.Sleep(20 * time.Millisecond)
+			}
+			m.follow()
+			continue
+		}
+		wasAof := false
+		if o.cmd.kind == 'U' {
+			for _, h := range m.snapshot([][2]int{{o.cmd.db, o.cmd.key}}).holds {
+				if h.lockId == o.cmd.lockId && h.isAof {
+					wasAof = true
+				}
+			}
+		}
+		res := m.do(*o.cmd)
+		if o.cmd.kind == 'U' && res == int(protocol.RESULT_SUCCED) {
+			stats["gen2-unlocks-succeeded"]++
+			if wasAof {
+				unl[[3]int{o.cmd.db, o.cmd.key, o.cmd.lockId}]++
+				if restored[[3]int{o.cmd.db, o.cmd.key, o.cmd.lockId}] {
+					stats["gen2-unlocks-of-restored-holds-succeeded"]++
+				}
+			}
+		}
+		if o.cmd.eflag&protocol.EXPRIED_FLAG_MILLISECOND_TIME != 0 {
+			time.Sleep(3 * time.Millisecond)
+		}
+	}
+	gen2 := strings.Join(opstr, " ")
+	m.follow()
+	m.drain()
+	orig2 := m.snapshot(c.keys)
+	tEnd2 := m.now
+	dirA2 := filepath.Join(dir, "a2")
+	vRCopyDir(d2, dirA2)
+	j2, nrec2, _ := m.journal(dirA2, base)
+	okClock := m.clockOK()
+	m.stop()
+	if !okClock {
+		stats["clock-escaped"]++
+		return
+	}
+	sn2, now2, st2 := e.restartPinned(dirA2, c)
+	if st2 == "clock" {
+		stats["clock-escaped"]++
+		return
+	}
+	op := fmt.Sprintf("restart %d %d %d %s", base, now2-base, c.bufSize, j2)
+	replay := map[string]interface{}{"history": history + " R " + gen2, "base": base, "restart1At": now1 - base, "restoredByRestart1": sn1.String(base, true),
+		"journalAtStartOfGeneration2": j1, "generation2": gen2, "end": tEnd2 - base, "restartAt": now2 - base, "journal": j2, "original": orig2.String(base, true),
+		"cfg": fmt.Sprintf("buf=%d aofTime=%d dbs=%d outage=%d twoGenerations", c.bufSize, c.aofT, c.ndb, c.outage), "corpus": c.name}
+	if st2 == "err" {
+		e.out.emit(op, "err")
+		e.monitor("C07:restart-fails", "the second start-up on an un-cut directory written by the server itself fails", replay)
+		return
+	}
+	e.out.emit(op, sn2.String(base, false))
+	if bad := vRCheckPairing(dirA2); bad != "" {
+		e.monitor("C16:rotation:record-and-value-in-different-files", "a record file and its value file do not pair (generation 2): "+bad, replay)
+	}
+	line2 := e.rout.n
+	e.rout.emit(fmt.Sprintf("aofreload %d %s", now2-base, j2), sn2.String(base, false))
+	replay["restored"] = sn2.String(base, false)
+	stats["gen2-cases"]++
+	stats["gen2-ops"] += len(ops)
+	stats["gen2-holds-restored-by-restart-1"] += len(sn1.holds)
+	stats["gen2-holds-at-stop"] += len(orig2.holds)
+	stats["gen2-holds-restored-by-restart-2"] += len(sn2.holds)
+	stats["gen2-records"] += nrec2
+	stats["gen2-keys-not-judged"] += len(skip)
+	stats["gen2-keys"] += len(c.keys)
+	recs2 := vRParseJournal(j2)
+	for i, r := range recs2 {
+		if i >= len(recs1) && r.kind == 'U' && r.aofFlag&AOF_FLAG_EXPRIED != 0 {
+			stats["gen2-expiry-records-written-in-generation-2"]++
+		}
+	}
+	ideal2 := vRRecover(recs2, base)
+	e.jout.emit("aofjournal "+j2, ideal2.String(base))
+	replay["journalMeans"] = ideal2.String(base)
+	countU := func(recs []vRRec, id [3]int) int {
+		n := 0
+		for _, r := range recs {
+			if [3]int{r.db, r.key, r.id} == id && r.kind == 'U' && r.aofFlag&(AOF_FLAG_EXPRIED|AOF_FLAG_TIMEOUTED) == 0 {
+				n++
+			}
+		}
+		return n
+	}
+	cause := func(id [3]int) string {
+		if unl[id] > 0 && countU(recs2, id)-countU(recs1, id) < unl[id] {
+			if restored[id] {
+				return "unlock-of-restored-hold-not-journalled"
+			}
+			return "unlock-not-journalled"
+		}
+		return vRJournalCause(recs2, id)
+	}
+	origBy := map[[3]int]vRHold{}
+	var origAof []vRHold
+	for _, h := range orig2.holds {
+		origBy[h.id()] = h
+		if h.isAof {
+			origAof = append(origAof, h)
+		}
+	}
+	nearEnd := func(h vRHold) bool {
+		unit, _ := vRUnit(h.eflag)
+		return h.deadline != 0x7fffffffffffffff && h.deadline <= tEnd2+unit+2
+	}
+	badJ := map[[2]int]bool{}
+	for k := range skip {
+		badJ[k] = true
+	}
+	for _, d := range vRCompareHolds("J", origAof, ideal2.list(), func(vRHold) string { return "x" }, nearEnd, true) {
+		if skip[[2]int{d.id[0], d.id[1]}] {
+			continue
+		}
+		what := strings.Split(d.sig, ":")[1]
+		o := origBy[d.id]
+		_, ucls := vRUnit(o.eflag)
+		switch what {
+		case "restored-missing":
+			what = "hold-missing"
+		case "restored-extra":
+			what = "hold-extra"
+		case "deadline-renewed", "deadline-early":
+			if ucls == "milliseconds" {
+				continue
+			}
+			what = "deadline-mismatch:" + ucls
+		}
+		e.monitor("C07:journal:"+cause(d.id), "generation 2: journal vs database at stop ("+what+"): "+d.what, replay)
+		badJ[[2]int{d.id[0], d.id[1]}] = true
+	}
+	for _, k := range orig2.keys {
+		has := false
+		for _, h := range origAof {
+			if h.db == k.db && h.key == k.key {
+				has = true
+			}
+		}
+		if iv, ok := ideal2.values[[2]int{k.db, k.key}]; has && !badJ[[2]int{k.db, k.key}] && k.valueAof && (!ok || iv != vHex(k.value)) {
+			e.monitor("C07:journal:value-mismatch", fmt.Sprintf("generation 2: db %d key %d: the database holds value %s, the journal describes %q", k.db, k.key, vHex(k.value), iv), replay)
+		}
+	}
+	_ = e.replayCheck(recs2, sn2, now2, base, line2, origBy, badJ, replay)
 }
